@@ -1,3 +1,11 @@
 """vcheck configuration of work group H: PROPS = {"Cxx": {"families": [fam("name", quick_n, thorough_n)], "defects": ["Dn"]}}"""
 
-PROPS = {}
+PROPS = {
+    "C10": {
+        "families": [fam("c10", 4000, 60000)],
+        "rule": "values from a grammar around every keyword, record type, field count and numeric bound plus byte mutations; "
+                "each value goes through loadDNSRewrite (and NewNetworkRule when it can be written as an option value); "
+                "c10.dnsrw compares the full dump with the Lean model, c10.shape evaluates the Lean shape predicate on the "
+                "implementation's own result; non-trivial = the value was accepted; distinct by hash of the op input",
+    },
+}
